@@ -1,0 +1,322 @@
+//! Simulation seams, compiled only with `--cfg slotted_egraphs_verif`.
+//!
+//! Everything in here is inert unless a simulator sets the thread-local knobs:
+//! with all knobs at their defaults the crate behaves exactly like the shipped build
+//! (hash seed 0 reproduces FxHasher bit for bit, stride 0, real-time-free clock at 0,
+//! no fuel limit, no buggify).
+
+use crate::*;
+use std::cell::{Cell, RefCell};
+use std::hash::{BuildHasher, Hasher};
+use std::time::Duration;
+
+thread_local! {
+    static HASH_SEED: Cell<u64> = Cell::new(0);
+    static STRIDE_STATE: Cell<u64> = Cell::new(0);
+    static STRIDE_MAX: Cell<u32> = Cell::new(0);
+    static CLOCK_NANOS: Cell<u64> = Cell::new(0);
+    static CLOCK_AUTO_STEP: Cell<u64> = Cell::new(0);
+    static CLOCK_READS: Cell<u64> = Cell::new(0);
+    static FUEL_LEFT: Cell<u64> = Cell::new(u64::MAX);
+    static TICKS: Cell<u64> = Cell::new(0);
+    static BUGGIFY_MASK: Cell<u32> = Cell::new(0);
+    static BUGGIFY_STATE: Cell<u64> = Cell::new(0);
+    static BUGGIFY_FIRED: RefCell<[u64; 8]> = RefCell::new([0; 8]);
+    static PROBES: RefCell<Vec<(&'static str, u64)>> = RefCell::new(Vec::new());
+}
+
+fn splitmix(state: &Cell<u64>) -> u64 {
+    let mut z = state.get().wrapping_add(0x9E37_79B9_7F4A_7C15);
+    state.set(z);
+    z = (z ^ (z >> 30)).wrapping_mul(0xBF58_476D_1CE4_E5B9);
+    z = (z ^ (z >> 27)).wrapping_mul(0x94D0_49BB_1331_11EB);
+    z ^ (z >> 31)
+}
+
+// ---- H1: seeded hasher -------------------------------------------------------------------
+
+/// Sets the seed captured by every hash map / set created afterwards on this thread.
+/// Seed 0 = shipped FxHasher order.
+pub fn set_hash_seed(seed: u64) {
+    HASH_SEED.with(|s| s.set(seed));
+}
+
+pub fn hash_seed() -> u64 {
+    HASH_SEED.with(|s| s.get())
+}
+
+#[derive(Clone, Copy, Debug)]
+pub struct SimBuildHasher {
+    seed: u64,
+}
+
+impl Default for SimBuildHasher {
+    fn default() -> Self {
+        SimBuildHasher { seed: hash_seed() }
+    }
+}
+
+impl BuildHasher for SimBuildHasher {
+    type Hasher = SimHasher;
+    fn build_hasher(&self) -> SimHasher {
+        SimHasher {
+            inner: rustc_hash::FxHasher::default(),
+            seed: self.seed,
+        }
+    }
+}
+
+#[derive(Clone)]
+pub struct SimHasher {
+    inner: rustc_hash::FxHasher,
+    seed: u64,
+}
+
+impl Hasher for SimHasher {
+    #[inline]
+    fn write(&mut self, bytes: &[u8]) {
+        self.inner.write(bytes)
+    }
+    #[inline]
+    fn write_u8(&mut self, i: u8) {
+        self.inner.write_u8(i)
+    }
+    #[inline]
+    fn write_u16(&mut self, i: u16) {
+        self.inner.write_u16(i)
+    }
+    #[inline]
+    fn write_u32(&mut self, i: u32) {
+        self.inner.write_u32(i)
+    }
+    #[inline]
+    fn write_u64(&mut self, i: u64) {
+        self.inner.write_u64(i)
+    }
+    #[inline]
+    fn write_u128(&mut self, i: u128) {
+        self.inner.write_u128(i)
+    }
+    #[inline]
+    fn write_usize(&mut self, i: usize) {
+        self.inner.write_usize(i)
+    }
+    #[inline]
+    fn finish(&self) -> u64 {
+        let h = self.inner.finish();
+        if self.seed == 0 {
+            return h;
+        }
+        // seeded bijective post-mix: permutes every iteration order.
+        let mut z = h ^ self.seed;
+        z = (z ^ (z >> 30)).wrapping_mul(0xBF58_476D_1CE4_E5B9);
+        z = (z ^ (z >> 27)).wrapping_mul(0x94D0_49BB_1331_11EB);
+        z ^ (z >> 31)
+    }
+}
+
+// ---- H2: fresh stride --------------------------------------------------------------------
+
+/// `Slot::fresh` skips between 0 and `max` values (PRNG from `seed`) after every call.
+pub fn set_fresh_stride(seed: u64, max: u32) {
+    STRIDE_STATE.with(|s| s.set(seed));
+    STRIDE_MAX.with(|s| s.set(max));
+}
+
+pub(crate) fn fresh_stride() -> u32 {
+    let max = STRIDE_MAX.with(|s| s.get());
+    if max == 0 {
+        return 0;
+    }
+    let r = STRIDE_STATE.with(|s| splitmix(s));
+    probe("fresh_stride_taken");
+    (r % (max as u64 + 1)) as u32
+}
+
+// ---- H3: simulated clock -----------------------------------------------------------------
+
+pub fn clock_set_nanos(n: u64) {
+    CLOCK_NANOS.with(|c| c.set(n));
+}
+
+pub fn clock_advance(d: Duration) {
+    CLOCK_NANOS.with(|c| c.set(c.get().saturating_add(d.as_nanos() as u64)));
+}
+
+pub fn clock_nanos() -> u64 {
+    CLOCK_NANOS.with(|c| c.get())
+}
+
+/// Every read of the clock advances it by `step` nanoseconds (0 = stalled clock).
+pub fn clock_set_auto_step(step: u64) {
+    CLOCK_AUTO_STEP.with(|c| c.set(step));
+}
+
+pub fn clock_reads() -> u64 {
+    CLOCK_READS.with(|c| c.get())
+}
+
+#[derive(Clone, Copy, Debug, PartialEq, Eq, PartialOrd, Ord, Hash)]
+pub struct Instant(u64);
+
+impl Instant {
+    pub fn now() -> Instant {
+        CLOCK_READS.with(|c| c.set(c.get() + 1));
+        let step = CLOCK_AUTO_STEP.with(|c| c.get());
+        CLOCK_NANOS.with(|c| {
+            let v = c.get().saturating_add(step);
+            c.set(v);
+            Instant(v)
+        })
+    }
+
+    pub fn elapsed(&self) -> Duration {
+        Instant::now().duration_since(*self)
+    }
+
+    pub fn duration_since(&self, earlier: Instant) -> Duration {
+        Duration::from_nanos(self.0.saturating_sub(earlier.0))
+    }
+
+    pub fn as_nanos(&self) -> u64 {
+        self.0
+    }
+}
+
+// ---- H5: probes + fuel -------------------------------------------------------------------
+
+/// Sets the number of `tick()`s allowed before the library panics with "fuel exhausted".
+pub fn set_fuel(n: u64) {
+    FUEL_LEFT.with(|f| f.set(n));
+}
+
+pub fn ticks() -> u64 {
+    TICKS.with(|t| t.get())
+}
+
+#[inline]
+pub(crate) fn tick() {
+    TICKS.with(|t| t.set(t.get() + 1));
+    FUEL_LEFT.with(|f| {
+        let v = f.get();
+        if v == 0 {
+            // refill so that unwinding code paths that tick do not double-panic.
+            f.set(u64::MAX);
+            panic!("verif: fuel exhausted");
+        }
+        if v != u64::MAX {
+            f.set(v - 1);
+        }
+    });
+}
+
+#[inline]
+pub(crate) fn probe(name: &'static str) {
+    PROBES.with(|p| {
+        let mut p = p.borrow_mut();
+        for e in p.iter_mut() {
+            if std::ptr::eq(e.0, name) || e.0 == name {
+                e.1 += 1;
+                return;
+            }
+        }
+        p.push((name, 1));
+    });
+}
+
+/// Returns and clears the probe counters of this thread.
+pub fn take_probes() -> Vec<(&'static str, u64)> {
+    PROBES.with(|p| std::mem::take(&mut *p.borrow_mut()))
+}
+
+// ---- H6: buggify -------------------------------------------------------------------------
+
+pub const BUGGIFY_SKIP_COMPRESSION: u32 = 1;
+pub const BUGGIFY_NO_TRIVIAL_GROUP_FASTPATH: u32 = 2;
+
+/// Enables the cooperative fault points in `mask`; each enabled site fires with
+/// probability 1/2 per visit, decided by a PRNG seeded with `seed`.
+pub fn set_buggify(mask: u32, seed: u64) {
+    BUGGIFY_MASK.with(|m| m.set(mask));
+    BUGGIFY_STATE.with(|s| s.set(seed));
+}
+
+#[inline]
+pub(crate) fn buggify(site: u32) -> bool {
+    if BUGGIFY_MASK.with(|m| m.get()) & site == 0 {
+        return false;
+    }
+    let fire = BUGGIFY_STATE.with(|s| splitmix(s)) & 1 == 1;
+    if fire {
+        BUGGIFY_FIRED.with(|f| f.borrow_mut()[site.trailing_zeros() as usize] += 1);
+    }
+    fire
+}
+
+pub fn buggify_fired(site: u32) -> u64 {
+    BUGGIFY_FIRED.with(|f| f.borrow()[site.trailing_zeros() as usize])
+}
+
+/// Resets every knob of this thread to the shipped behaviour.
+pub fn reset_all() {
+    set_hash_seed(0);
+    set_fresh_stride(0, 0);
+    clock_set_nanos(0);
+    clock_set_auto_step(0);
+    CLOCK_READS.with(|c| c.set(0));
+    set_fuel(u64::MAX);
+    TICKS.with(|t| t.set(0));
+    set_buggify(0, 0);
+    BUGGIFY_FIRED.with(|f| *f.borrow_mut() = [0; 8]);
+    take_probes();
+}
+
+// ---- H4: public wrapper around the crate-private permutation group -----------------------
+
+/// Add-only public view of `Group<Perm>` for the simulator (property C10).
+#[derive(Clone, Debug)]
+pub struct VGroup {
+    g: Group<Perm>,
+}
+
+impl VGroup {
+    /// Group on the slot set `omega` generated by `generators` (each a permutation of `omega`).
+    pub fn new(omega: &SmallHashSet<Slot>, generators: Vec<SlotMap>) -> VGroup {
+        let identity = SlotMap::identity(omega);
+        VGroup {
+            g: Group::new(&identity, generators.into_iter().collect()),
+        }
+    }
+
+    pub fn contains(&self, p: &SlotMap) -> bool {
+        self.g.contains(p)
+    }
+
+    pub fn all_perms(&self) -> Vec<SlotMap> {
+        self.g.all_perms()
+    }
+
+    pub fn count(&self) -> usize {
+        self.g.count()
+    }
+
+    pub fn orbit(&self, s: Slot) -> SmallHashSet<Slot> {
+        self.g.orbit(s)
+    }
+
+    pub fn add_set(&mut self, perms: Vec<SlotMap>) -> bool {
+        self.g.add_set(perms.into_iter().collect())
+    }
+
+    pub fn add(&mut self, perm: SlotMap) -> bool {
+        self.g.add(perm)
+    }
+
+    pub fn generators(&self) -> Vec<SlotMap> {
+        self.g.generators().into_iter().collect()
+    }
+
+    pub fn is_trivial(&self) -> bool {
+        self.g.is_trivial()
+    }
+}
